@@ -1,5 +1,6 @@
 (* C04 - proofs about Engine/Crash.v: a build killed after any number of database operations leaves exactly the
    pre-build or exactly the post-build state, both satisfying the invariant; histories; counter-models. *)
+From Coq Require Import Arith.
 From LLB Require Import Engine.Rules Engine.Crash.
 Local Open Scope N_scope.
 
@@ -314,3 +315,162 @@ Proof.
     + apply Nat.ltb_lt in Hn. rewrite Hn. reflexivity.
     + apply Nat.ltb_ge in Hn. rewrite Hn. reflexivity.
 Qed.
+
+(* ------------------------------------------------------------------ no epoch is handed out twice with rows attached *)
+(* The engine of the next process starts from [iteration st] and stamps its first build with [iteration st + 1]:
+   no stored row carries that epoch, so "builtAt < computedAt of an input" comparisons never meet a stale equal stamp. *)
+Theorem no_epoch_reuse_hazard : forall st k r,
+  DbInv st -> lookup (rows st) k = Some r ->
+  res_builtAt r <> iteration st + 1 /\ res_computedAt r <> iteration st + 1.
+Proof.
+  intros st k r [He _] Hl. apply lookup_In in Hl. rewrite Forall_forall in He.
+  destruct (He (k, r) Hl) as [Hb Hc]. cbn [snd] in Hb, Hc. split; lia.
+Qed.
+
+Theorem no_epoch_reuse_after_kill : forall st0 ops n k r,
+  DbInv st0 -> wf_trace st0 ops = true -> (n < length ops)%nat ->
+  let st := recover st0 (firstn n ops) in
+  iteration st = iteration st0 /\
+  (lookup (rows st) k = Some r -> res_builtAt r <> iteration st0 + 1 /\ res_computedAt r <> iteration st0 + 1).
+Proof.
+  intros st0 ops n k r Hinv Hwf Hn st. unfold st. rewrite (recover_cut st0 ops n Hwf Hn).
+  split; [reflexivity|]. intros Hl. apply (no_epoch_reuse_hazard st0 k r Hinv Hl).
+Qed.
+
+(* ------------------------------------------------------------------ the generated trace is well-formed *)
+Lemma wf_body_addkeys : forall l e ks rest,
+  wf_body e ks (map AddKey l ++ rest) = wf_body e (fold_left add_key l ks) rest.
+Proof.
+  induction l as [|a t IH]; intros e ks rest.
+  - reflexivity.
+  - cbn [map app wf_body fold_left]. apply IH.
+Qed.
+
+Lemma wf_body_results : forall results e ks,
+  results_ok e results = true ->
+  wf_body e ks (flat_map ops_of_result results ++ [SetIteration e; Commit]) = true.
+Proof.
+  induction results as [|[k r] t IH]; intros e ks Hok.
+  - cbn [flat_map app wf_body]. rewrite N.eqb_refl. reflexivity.
+  - unfold results_ok in Hok. cbn [forallb snd] in Hok. apply andb_true_iff in Hok. destruct Hok as [Hr Ht].
+    cbn [flat_map]. unfold ops_of_result at 1. cbn [fst snd].
+    rewrite <- map_map with (f := d_key) (g := AddKey).
+    cbn [app]. rewrite <- !app_assoc. cbn [wf_body]. rewrite wf_body_addkeys. cbn [app wf_body].
+    apply andb_true_iff. split.
+    + unfold res_ok. rewrite Hr. cbn [andb]. apply andb_true_iff. split.
+      * apply mem_In. apply fold_add_key_incl. apply add_key_in.
+      * apply forallb_forall. intros d Hd. apply mem_In. apply fold_add_key_in. apply in_map. exact Hd.
+    + apply IH. exact Ht.
+Qed.
+
+Theorem trace_of_build_wf : forall st e results,
+  e = iteration st + 1 -> results_ok e results = true -> wf_trace st (trace_of_build e results) = true.
+Proof.
+  intros st e results -> Hok. unfold trace_of_build, wf_trace.
+  rewrite (wf_body_results results (iteration st + 1) (key_names st) Hok). apply orb_true_r.
+Qed.
+
+Theorem trace_refused_wf : forall st, wf_trace st trace_refused = true.
+Proof. intros st. reflexivity. Qed.
+
+(* ------------------------------------------------------------------ counter-models *)
+Definition cm_results : list (key * result) :=
+  [ (0, mkRes (Some (1, 1)) 0 1 1 []);
+    (1, mkRes (Some (2, 0)) 1 1 1 [mkDep 0 false false]) ].
+
+(* iteration in its own transaction after the results: killed between the two commits (7 operations issued),
+   the file holds rows of epoch 1 under stored epoch 0 - the next process re-issues epoch 1 *)
+Theorem iteration_after_commit_refuted :
+  exists st0 e results n,
+    DbInv st0 /\ e = iteration st0 + 1 /\ results_ok e results = true /\
+    ~ DbInv (recover st0 (firstn n (trace_iteration_after_commit e results))) /\
+    exists k r, lookup (rows (recover st0 (firstn n (trace_iteration_after_commit e results)))) k = Some r /\
+                res_builtAt r = iteration (recover st0 (firstn n (trace_iteration_after_commit e results))) + 1.
+Proof.
+  exists empty_db, 1, cm_results, 7%nat.
+  split; [exact empty_db_inv|]. split; [reflexivity|]. split; [reflexivity|]. split.
+  - intros H. apply db_inv_b_iff in H. vm_compute in H. discriminate.
+  - exists 0, (mkRes (Some (1, 1)) 0 1 1 []). split; reflexivity.
+Qed.
+
+(* one transaction per result: killed after the first commit (4 operations issued), the file is neither the pre-build
+   nor the post-build state, and again holds a row of epoch 1 under stored epoch 0 *)
+Theorem commit_per_result_refuted :
+  exists st0 e results n,
+    DbInv st0 /\ e = iteration st0 + 1 /\ results_ok e results = true /\
+    ~ DbInv (recover st0 (firstn n (trace_commit_per_result e results))) /\
+    recover st0 (firstn n (trace_commit_per_result e results)) <> st0 /\
+    recover st0 (firstn n (trace_commit_per_result e results)) <> apply_committed st0 (trace_commit_per_result e results).
+Proof.
+  exists empty_db, 1, cm_results, 4%nat.
+  split; [exact empty_db_inv|]. split; [reflexivity|]. split; [reflexivity|]. split; [|split].
+  - intros H. apply db_inv_b_iff in H. vm_compute in H. discriminate.
+  - vm_compute. discriminate.
+  - vm_compute. discriminate.
+Qed.
+
+Theorem needs_single_txn_refuted :
+  (exists st0 e results n,
+     DbInv st0 /\ e = iteration st0 + 1 /\ results_ok e results = true /\
+     ~ DbInv (recover st0 (firstn n (trace_iteration_after_commit e results)))) /\
+  (exists st0 e results n,
+     DbInv st0 /\ e = iteration st0 + 1 /\ results_ok e results = true /\
+     ~ DbInv (recover st0 (firstn n (trace_commit_per_result e results)))).
+Proof.
+  split.
+  - destruct iteration_after_commit_refuted as [st0 [e [rs [n [H1 [H2 [H3 [H4 _]]]]]]]].
+    exists st0, e, rs, n. split; [exact H1|]. split; [exact H2|]. split; [exact H3 | exact H4].
+  - destruct commit_per_result_refuted as [st0 [e [rs [n [H1 [H2 [H3 [H4 _]]]]]]]].
+    exists st0, e, rs, n. split; [exact H1|]. split; [exact H2|]. split; [exact H3 | exact H4].
+Qed.
+
+(* the same two results through the real trace shape: every cut is harmless *)
+Example cm_results_single_txn_ok : forall n,
+  DbInv (recover empty_db (firstn n (trace_of_build 1 cm_results))).
+Proof.
+  intros n.
+  assert (Hwf : wf_trace empty_db (trace_of_build 1 cm_results) = true) by (apply trace_of_build_wf; reflexivity).
+  rewrite (prefix_atomic empty_db _ n Hwf). destruct (Nat.ltb n (length (trace_of_build 1 cm_results))).
+  - exact empty_db_inv.
+  - apply committed_inv; [exact empty_db_inv | exact Hwf].
+Qed.
+
+(* ------------------------------------------------------------------ non-vacuity *)
+(* a non-empty database (two keys, one row with a dependency, epoch 3), then a build of epoch 4 storing two results,
+   one of them with a dependency on a key that is new to the database *)
+Definition ex_st0 : dbst :=
+  mkDb [(5, mkRes (Some (7, 2)) 1 2 3 [mkDep 6 false false]); (6, mkRes (Some (9, 9)) 0 1 3 [])] [5; 6] 3.
+Definition ex_results : list (key * result) :=
+  [ (6, mkRes (Some (4, 4)) 0 4 4 []);
+    (8, mkRes (Some (3, 0)) 2 4 4 [mkDep 6 false false; mkDep 9 true false]) ].
+Definition ex_trace : list dbop := trace_of_build 4 ex_results.
+
+Example ex_st0_inv : DbInv ex_st0.
+Proof. apply db_inv_b_iff. reflexivity. Qed.
+Example ex_trace_wf : wf_trace ex_st0 ex_trace = true.
+Proof. reflexivity. Qed.
+Example ex_trace_length : length ex_trace = 9%nat.
+Proof. reflexivity. Qed.
+(* killed just before the Commit is issued: exactly the pre-build state *)
+Example ex_cut_before_commit : recover ex_st0 (firstn 8 ex_trace) = ex_st0.
+Proof. reflexivity. Qed.
+(* all nine operations issued: the post-build state, with the new keys, both rows and the new epoch *)
+Example ex_full :
+  recover ex_st0 (firstn 9 ex_trace) =
+  mkDb [(5, mkRes (Some (7, 2)) 1 2 3 [mkDep 6 false false]); (6, mkRes (Some (4, 4)) 0 4 4 []);
+        (8, mkRes (Some (3, 0)) 2 4 4 [mkDep 6 false false; mkDep 9 true false])] [5; 6; 8; 9] 4.
+Proof. reflexivity. Qed.
+Example ex_full_inv : db_inv_b (recover ex_st0 ex_trace) = true.
+Proof. reflexivity. Qed.
+(* a history: a refused build, a killed build (5 operations), the same build again to completion, a killed build *)
+Definition ex_history : list run :=
+  [ mkRun trace_refused None; mkRun ex_trace (Some 5%nat); mkRun ex_trace None;
+    mkRun (trace_of_build 5 [(5, mkRes (Some (1, 1)) 1 5 5 [mkDep 8 false false])]) (Some 4%nat) ].
+Example ex_history_wf : wf_history ex_st0 ex_history = true.
+Proof. reflexivity. Qed.
+Example ex_history_result : after_history ex_st0 ex_history = apply_committed ex_st0 ex_trace.
+Proof. reflexivity. Qed.
+Example ex_history_log : committed_log ex_history = ex_results.
+Proof. reflexivity. Qed.
+Example ex_no_reuse : forall k r, lookup (rows ex_st0) k = Some r -> res_builtAt r <> 4 /\ res_computedAt r <> 4.
+Proof. intros k r H. apply (no_epoch_reuse_hazard ex_st0 k r ex_st0_inv H). Qed.
